@@ -10,14 +10,14 @@ same wire string decoded twice.
   TD:<us>  datetime.timedelta  PD:<us>  pd.Timedelta         m8<unit>:<us>  np.timedelta64[unit] of that duration (unit W|D|h|m|s|ms|us|ns)
   M8ps:<n> / M8fs:<n> / M8as:<n>  np.datetime64 of n pico / femto / attoseconds since 1970 (review v5: the COUNT; pandas would truncate it to ns, Timestamp == says so)
   m8Y:<n> / m8M:<n> (CM:<n> = m8M:<n>)  np.timedelta64 of n YEARS / MONTHS (review t5: pandas holds no such duration, numpy == says it is the int n)
-  (L ..) (T ..) (D (k v)..)    (DC <n> (k v)..)   n=1 pyg_base.Dict, n=2 pyg_base.dictattr
+  (L ..) (T ..) (D (k v)..)    (DC <n> (k v)..)   n=1 pyg_base.Dict, n=2 pyg_base.dictattr, n=3 collections.OrderedDict
   (A <dtype i|f|e|b|U|o|Mns|Mus|Ms|MD|Mps|Mfs|mns|mus|mD|mY|mM> (<shape>) cells..)   e = float32, M.. = datetime64[..] (cells T:<us> / NaT:P), m.. = timedelta64[..]
   (cells TD:<us> / NaT:P)        (S (labels) cells..)   (DF (index) (columns) cells row-major..)
 
 ops: (eq eq x y), (eq in x seq), (eq pyeq x y) native == on plain values, (eq eqr x y) the model answers with the raising reading eqR,
 (eq eqpinned x y) the model answers with eqPinned and the implementation is eq of _eq.py as it was before fix F6c (see pinned_eq).
 """
-import datetime, itertools
+import collections, datetime, itertools
 import numpy as np
 import pandas as pd
 from .. import proto
@@ -147,7 +147,7 @@ def dec(x):
     if head == 'D':
         return {proto.unhex(kv[0]): dec(kv[1]) for kv in rest}
     if head == 'DC':
-        cls = {1: Dict, 2: dictattr}[int(rest[0])]
+        cls = {1: Dict, 2: dictattr, 3: collections.OrderedDict}[int(rest[0])]
         return cls({proto.unhex(kv[0]): dec(kv[1]) for kv in rest[1:]})
     if head == 'A':
         dtype, shape, cells = rest[0], tuple(int(n) for n in rest[1]), [dec(c) for c in rest[2:]]
@@ -290,7 +290,9 @@ def universe():
          [ts], [D(2020, 1, 1)],
          # dicts and subclasses
          {'a': None}, {'b': None}, {'a': 1, 'b': None}, {'a': 1, 'c': None}, [{'a': None}], [{'b': None}],      # a key that is missing must not read as None
-         {'a': 1}, DC(1, a=1), DC(2, a=1), {'a': 1.0}, {'a': 2}, {'b': 1}, {'a': 1, 'b': 2}, {'b': 2, 'a': 1}, {'a': nan}, {'a': {'x': nan}},
+         {'a': 1}, DC(1, a=1), DC(2, a=1), {'a': 1.0},
+         # OrderedDict (review v5): a dict subclass - never eq to the plain dict, and eq sorts its items like any dict's: insertion order is ignored (python == of two OrderedDicts is not)
+         DC(3, a=1), DC(3, a=1, b=2), DC(3, b=2, a=1), DC(3), [DC(3, b=2, a=1)], DC(1, b=2, a=1), {'a': 2}, {'b': 1}, {'a': 1, 'b': 2}, {'b': 2, 'a': 1}, {'a': nan}, {'a': {'x': nan}},
          {'a': [1, 2], 'b': [3, 4]}, {'a': (1, 2), 'b': (3, 4)}, {'a': [1, 2], 'b': [3]},
          # arrays
          A('i', (), 1), A('f', (), 1.0), A('i', (1,), 1), A('f', (1,), 1.0), A('i', (2,), 1, 2), A('f', (2,), 1.0, 2.0), A('f', (2,), nan, 2.0),
@@ -382,7 +384,7 @@ def rand_val(rng, depth):
     if r < 0.7:
         keys = rng.sample(['a', 'b', 'c', 'd'], n)
         items = {k: rand_val(rng, depth - 1) for k in keys}
-        c = rng.choice([0, 0, 1, 2])
+        c = rng.choice([0, 0, 0, 1, 2, 3])
         return w(items) if c == 0 else DC(c, **items)
     if r < 0.85:
         shape = rand_shape(rng)
@@ -444,7 +446,7 @@ def mutate(rng, sx):
     if head in ('D', 'DC'):
         items = sx[1:] if head == 'D' else sx[2:]
         if r < 0.3:
-            return ['DC', rng.choice(['1', '2'])] + items if head == 'D' else ['D'] + items
+            return ['DC', rng.choice(['1', '2', '3'])] + items if head == 'D' else ['D'] + items
         if r < 0.45 and items:
             items = list(items)
             rng.shuffle(items)
